@@ -549,8 +549,61 @@ def _outside_shard(ctx: Ctx, shard: int, nshards: int, n: int) -> None:
     hyp_run(ctx, "outside", strat, lambda x: one(x[0][0], x[0][1], x[1]), n)
 
 
+def leave_case(loop, case: dict) -> bool:
+    """
+    One listener leaves the endpoint (what ``Overlay.unload`` does first) from inside its own handling of a datagram; that
+    datagram and the next one must still reach every other listener registered for the prefix, once, and the catch-all
+    listener. Returns whether another listener shares the prefix.
+    """
+    m = Mux(loop, case["node"])
+    leaver = m.overlays[case["leave"] % len(m.overlays)]
+    prefix = leaver.get_prefix()
+    src = tuple(case["src"])
+    inner = leaver.on_packet
+    state = {"left": False}
+
+    def leaving(packet, *a, **kw):
+        try:
+            return inner(packet, *a, **kw)
+        finally:
+            if not state["left"]:
+                state["left"] = True
+                m.endpoint.remove_listener(leaver)
+    leaver.on_packet = leaving
+    data = prefix + bytes([case["msg"]]) + bytes(case["body"])
+    m.judge(src, data, case)
+    others = [l for l in m.prefixes.get(prefix, []) if l is not leaver]
+    if state["left"]:
+        m.prefixes[prefix] = others
+        m.trace["on_packet"].clear()
+        m.judge(src, data, case)
+    return bool(others) and state["left"]
+
+
+def _leave_shard(ctx: Ctx, shard: int, nshards: int, thorough: bool) -> None:
+    async def main(loop):
+        k = 0
+        for kind in ("sim", "udp4", "udp6", "stats", "disp"):
+            for leave in range(9):
+                for msg in (254,) if not thorough else (254, 250, 245, 1, 2, 7, 42):
+                    for body in (b"\x00" * 30,) if not thorough else (b"", b"\x00" * 30, b"\xff" * 200):
+                        k += 1
+                        if k % nshards != shard:
+                            continue
+                        src = SOURCES6[0] if kind == "udp6" else SOURCES[0]
+                        case = {"node": kind, "src": list(src), "leave": leave, "msg": msg, "body": body}
+                        try:
+                            nt = leave_case(loop, case)
+                        except Violation as v:
+                            ctx.violation(v)
+                            nt = True
+                        ctx.case((kind, leave, msg, len(body)), nt, cls="listener_leaves_during_delivery")
+    vloop.run(main)
+
+
 def run(ctx: Ctx) -> None:
     shard_run(ctx, _node_shard, extra=(not ctx.quick,))
+    shard_run(ctx, _leave_shard, extra=(not ctx.quick,))
     shard_run(ctx, _outside_shard, extra=(6 if ctx.quick else 300,))
     shard_run(ctx, _hyp_node_shard, extra=(150 if ctx.quick else 5000,))
     try:
@@ -595,6 +648,12 @@ def replay(ctx: Ctx, case: dict) -> None:
             finally:
                 await w.close()
         vloop.run(omain)
+        return
+
+    if "leave" in case:
+        async def lmain(loop):
+            leave_case(loop, case)
+        vloop.run(lmain)
         return
 
     async def main(loop):
